@@ -20,6 +20,7 @@ import (
 	"pgregory.net/rapid"
 
 	"verif/h/ev"
+	"verif/h/keys"
 	"verif/h/nodesim"
 )
 
@@ -45,20 +46,26 @@ type cand struct {
 	// honest: the certificate could have been produced by honest validators following the protocol for the valid proposal
 	honest     bool
 	nontrivial bool
+	// override: verdict decided by construction (block bytes deliberately differ from the valid proposal)
+	override *verdict
+	why      string
+	classes  []string
 }
 
 // env is the situation at one attack height.
 type env struct {
-	a, b     *nodesim.Node
-	ring     nodesim.KeyRing
-	p        *nodesim.Proposal // the valid proposal at B's next height
-	alt      *nodesim.Proposal // another valid proposal of the same height (may be nil)
-	base     *lib.QuorumCertificate
-	vs       lib.ValidatorSet // committee at the valid root height
-	rootH    uint64
-	height   uint64
-	leader   []byte
-	oldCerts []*lib.QuorumCertificate
+	a, b        *nodesim.Node
+	ring        nodesim.KeyRing
+	p           *nodesim.Proposal // the valid proposal at B's next height
+	alt         *nodesim.Proposal // another valid proposal of the same height (may be nil)
+	base        *lib.QuorumCertificate
+	vs          lib.ValidatorSet // committee at the valid root height
+	rootH       uint64
+	height      uint64
+	leader      []byte
+	oldCerts    []*lib.QuorumCertificate
+	committeeAt func(rootHeight uint64) (lib.ValidatorSet, bool)
+	cached      bool // the victim validated the valid proposal before (holds a cached block result)
 }
 
 func pubkeysOf(vs lib.ValidatorSet, idx []int) [][]byte {
@@ -165,6 +172,19 @@ func pickSubset(t *rapid.T, vs lib.ValidatorSet, cat string) (subset, bool) {
 	return pool[rapid.IntRange(0, len(pool)-1).Draw(t, "subset")], true
 }
 
+// clampCmp maps a difference to -2 (far below), -1 (exactly threshold-1), 0 (exactly threshold), +1 (above)
+func clampCmp(d *big.Int) int {
+	switch {
+	case d.Sign() == 0:
+		return 0
+	case d.Cmp(big.NewInt(-1)) == 0:
+		return -1
+	case d.Sign() < 0:
+		return -2
+	}
+	return 1
+}
+
 func idxStr(idx []int) string {
 	var s []string
 	for _, i := range idx {
@@ -250,7 +270,7 @@ func (e *env) mutateField(t *rapid.T, qc *lib.QuorumCertificate, f string) strin
 }
 
 var candKinds = []string{"subset", "subset", "subset", "extra-bits", "extra-bits", "padding-bits", "bitmap-len", "retarget", "retarget", "retarget", "retarget-hidden",
-	"propose-vote-qc", "other-block", "tx-swap", "results-swap", "sig-garble", "omit", "old-cert", "valid"}
+	"propose-vote-qc", "other-block", "tx-swap", "results-swap", "sig-garble", "omit", "old-cert", "valid", "lastqc", "lastqc"}
 
 // genCandidate draws one candidate
 func (e *env) genCandidate(t *rapid.T) *cand {
@@ -274,6 +294,7 @@ func (e *env) genCandidate(t *rapid.T) *cand {
 		}
 		c := e.signed(kind, nil, e.vs, s.idx)
 		c.honest, c.nontrivial = true, true
+		c.classes = append(c.classes, "subset="+cat, fmt.Sprintf("subset-power-vs-threshold=%+d", clampCmp(new(big.Int).Sub(s.power, threshold(e.vs)))))
 		c.desc = fmt.Sprintf("%s signers=%s power=%s thr=%s", cat, idxStr(s.idx), s.power, threshold(e.vs))
 		return c
 	case "extra-bits":
@@ -520,6 +541,8 @@ func (e *env) genCandidate(t *rapid.T) *cand {
 		c.nontrivial = how == "block" || how == "results" || how == "block+results"
 		c.desc = "omitted: " + how
 		return c
+	case "lastqc":
+		return e.genLastQC(t)
 	case "old-cert":
 		// a genuine certificate of an EARLIER height (replay of an old commit)
 		if len(e.oldCerts) == 0 {
@@ -533,6 +556,100 @@ func (e *env) genCandidate(t *rapid.T) *cand {
 	panic(kind)
 }
 
+// genLastQC: the NEXT block (B's next height > 1) rebuilt with a tampered LastQuorumCertificate in its header, correctly
+// re-hashed and certified by a full quorum (a Byzantine quorum would be needed; the point is the inner re-check
+// Controller.CheckAndSetLastCertificate that every honest validator and every committing node performs)
+func (e *env) genLastQC(t *rapid.T) *cand {
+	// needs a Byzantine +2/3 quorum on ANOTHER block hash of this height; only offered to a victim that holds no validated
+	// proposal (see check.json assumptions: a quorum-certified block that fails execution drops the pending validated state
+	// while Consensus.BlockResult stays cached - outside the threat model of the property, reported as an observation)
+	if e.height <= 1 || e.cached {
+		return e.genCandidateOf(t, "retarget")
+	}
+	blk := new(lib.Block)
+	if err := lib.Unmarshal(e.p.Block, blk); err != nil {
+		panic(err)
+	}
+	last := blk.BlockHeader.LastQuorumCertificate
+	lvs, ok := e.committeeAt(last.Header.RootHeight)
+	if !ok {
+		return e.genCandidateOf(t, "subset")
+	}
+	how := rapid.SampledFrom([]string{"sig-flip", "partial-genuine", "payload-blockhash", "payload-resultshash", "extra-bits", "propose-vote-genuine", "sig-zero"}).Draw(t, "how")
+	v := mustReject
+	switch how {
+	case "sig-flip":
+		last.Signature.Signature[rapid.IntRange(0, 95).Draw(t, "i")] ^= 0x10
+	case "sig-zero":
+		last.Signature.Signature = make([]byte, 96)
+	case "partial-genuine":
+		// a genuine aggregate of a below-threshold subset over the last payload
+		s, ok := pickSubset(t, lvs, "maxbelow")
+		if !ok {
+			s, _ = pickSubset(t, lvs, "any")
+			how = "partial-genuine(no subset below threshold: any)"
+			v = either
+		}
+		keep := last.Signature
+		last.Signature = nil
+		sig, err := nodesim.Aggregate(last.SignBytes(), lvs, e.ring, s.idx)
+		if err != nil {
+			panic(err)
+		}
+		_ = keep
+		last.Signature = sig
+		how += " signers=" + idxStr(s.idx)
+	case "payload-blockhash":
+		last.BlockHash[3] ^= 0x01
+	case "payload-resultshash":
+		last.ResultsHash[3] ^= 0x01
+		last.Results = nil
+	case "extra-bits":
+		bm := last.Signature.Bitmap
+		changed := false
+		for i := 0; i < len(lvs.ValidatorSet.ValidatorSet); i++ {
+			if bm[i/8]&(1<<uint(i%8)) == 0 {
+				bm[i/8] |= 1 << uint(i%8)
+				changed = true
+				break
+			}
+		}
+		if !changed { // everyone signed: clear a bit instead (claimed set smaller than the real signer set)
+			bm[0] &^= 1
+		}
+	case "propose-vote-genuine":
+		// a genuine +2/3 PROPOSE_VOTE aggregate for the last block in place of the commit certificate: the inner check
+		// verifies signature and quorum of whatever phase is embedded -> recorded, not judged (the property speaks about
+		// the certificate a block ARRIVES with)
+		s, _ := pickSubset(t, lvs, "above")
+		last.Header.Phase = lib.Phase_PROPOSE_VOTE
+		last.Signature = nil
+		sig, err := nodesim.Aggregate(last.SignBytes(), lvs, e.ring, s.idx)
+		if err != nil {
+			panic(err)
+		}
+		last.Signature = sig
+		v = either
+	}
+	blk.BlockHeader.Hash = nil
+	hash, err := blk.BlockHeader.SetHash()
+	if err != nil {
+		panic(err)
+	}
+	bz, err := lib.Marshal(blk)
+	if err != nil {
+		panic(err)
+	}
+	s, _ := pickSubset(t, e.vs, "above")
+	c := e.signed("lastqc", func(qc *lib.QuorumCertificate) {
+		qc.Block, qc.BlockHash = bz, append([]byte(nil), hash...)
+	}, e.vs, s.idx)
+	c.override, c.why = &v, "next block carries a tampered last certificate: "+how
+	c.nontrivial = true
+	c.desc = "LastQuorumCertificate " + how + "; block re-hashed and certified by " + idxStr(s.idx)
+	return c
+}
+
 func (e *env) genCandidateOf(t *rapid.T, kind string) *cand {
 	saved := candKinds
 	candKinds = []string{kind}
@@ -542,6 +659,9 @@ func (e *env) genCandidateOf(t *rapid.T, kind string) *cand {
 
 // expect is the independent semantic evaluator: may this candidate cause B (at height e.height, on this chain) to commit?
 func (e *env) expect(c *cand, committeeAt func(rootHeight uint64) (lib.ValidatorSet, bool)) (verdict, string) {
+	if c.override != nil {
+		return *c.override, c.why
+	}
 	qc := c.qc
 	if qc == nil || qc.Header == nil || qc.Signature == nil || qc.Block == nil || qc.Results == nil {
 		return mustReject, "structurally incomplete"
@@ -556,8 +676,19 @@ func (e *env) expect(c *cand, committeeAt func(rootHeight uint64) (lib.Validator
 	if h.Phase != lib.Phase_PRECOMMIT_VOTE {
 		return mustReject, "not the commit-justifying phase"
 	}
-	if !bytes.Equal(qc.BlockHash, e.p.BlockHash) || !bytes.Equal(qc.Block, e.p.Block) {
+	bodyTampered := false
+	if !bytes.Equal(qc.BlockHash, e.p.BlockHash) {
 		return mustReject, "does not name exactly the valid block"
+	}
+	if !bytes.Equal(qc.Block, e.p.Block) {
+		// same certified header hash but other bytes in the message: a victim that has NOT executed the block itself must
+		// notice (transaction root); one that validated the certified proposal before commits its own cached execution of
+		// exactly the certified block and may ignore the body of the message (checked: its archive then holds the valid block)
+		hh, herr := new(lib.Block).BytesToBlockHash(qc.Block)
+		if !e.cached || herr != nil || !bytes.Equal(hh, e.p.BlockHash) {
+			return mustReject, "does not carry exactly the valid block"
+		}
+		bodyTampered = true
 	}
 	if !bytes.Equal(qc.Results.Hash(), qc.ResultsHash) {
 		return mustReject, "results do not match the results hash"
@@ -611,7 +742,7 @@ func (e *env) expect(c *cand, committeeAt func(rootHeight uint64) (lib.Validator
 		}
 	}
 	honest := bytes.Equal(qc.ResultsHash, e.p.Results.Hash()) && bytes.Equal(qc.ProposerKey, e.leader) && h.RootHeight == e.rootH
-	if canonical && honest {
+	if canonical && honest && !bodyTampered {
 		return mustCommit, fmt.Sprintf("genuine quorum: power %s >= threshold %s", signed, thr)
 	}
 	return either, "genuine quorum signed it, but not obtainable from an honest run / non-canonical bitmap"
@@ -661,7 +792,7 @@ func runChain(t *rapid.T, rec *ev.Rec) {
 	w := nodesim.GenWorld(t, 1)
 	ring := nodesim.NewKeyRing(w.NVals + w.Spare)
 	mk := func(name string, key int) *nodesim.Node {
-		n, err := sim.NewNode(nodesim.NodeOpts{Name: name, Genesis: w.Genesis(0), Key: ring2key(key)})
+		n, err := sim.NewNode(nodesim.NodeOpts{Name: name, Genesis: w.Genesis(0), Key: keys.BLS(key)})
 		if err != nil {
 			t.Fatalf("new node: %v", err)
 		}
@@ -715,7 +846,7 @@ func runChain(t *rapid.T, rec *ev.Rec) {
 			t.Fatalf("certify: %v %v", err, res.ProduceErr)
 		}
 		e := &env{a: a, b: b, ring: ring, p: res.Proposal, base: res.QC, vs: res.Committee, rootH: res.QC.Header.RootHeight, height: res.Height,
-			leader: a.C.PublicKey, oldCerts: g.Certified}
+			leader: a.C.PublicKey, oldCerts: g.Certified, committeeAt: committeeAt}
 		committees[e.rootH] = e.vs
 		// another valid block of the same height
 		addTxs([]string{"send"}, 1)
@@ -724,22 +855,40 @@ func runChain(t *rapid.T, rec *ev.Rec) {
 		}
 		// the victim may have validated the proposal already (cached result) or not (replay path)
 		cached := rapid.Bool().Draw(t, "victimValidatedFirst")
+		e.cached = cached
 		if cached {
 			if _, e2 := b.Validate(e.p.RcBuildHeight, e.base); e2 != nil {
 				t.Fatalf("VIOLATION(C11-like): B rejects A's valid proposal: %v", e2)
 			}
 		}
-		committedAt := -1
-		nCand := rapid.IntRange(3, 8).Draw(t, "nCand")
+		committedAt, forked := -1, false
+		nCand := rapid.IntRange(5, 12).Draw(t, "nCand")
+		// draw all candidates of this height, then offer those that must be rejected first and the genuine ones last (after
+		// the first commit only the "same certificate at another node height" rule is exercised)
+		var cands []*cand
 		for ci := 0; ci < nCand; ci++ {
+			cands = append(cands, e.genCandidate(t))
+		}
+		rank := func(c *cand) int { v, _ := e.expect(c, committeeAt); return map[verdict]int{mustReject: 0, either: 1, mustCommit: 2}[v] }
+		sort.SliceStable(cands, func(i, j int) bool { return rank(cands[i]) < rank(cands[j]) })
+		afterCommit := 0
+		for ci, c := range cands {
+			if committedAt >= 0 {
+				if afterCommit >= 2 {
+					break
+				}
+				afterCommit++
+			}
 			cs := rec.Case()
-			c := e.genCandidate(t)
 			want, why := e.expect(c, committeeAt)
 			if committedAt >= 0 {
 				want, why = mustReject, "B already committed this height"
 			}
 			cs.Class("kind=" + c.kind)
 			cs.Class("expect=" + want.String())
+			for _, l := range c.classes {
+				cs.Class(l)
+			}
 			cs.ClassIf(cached, "victim=validated-first")
 			cs.ClassIf(!cached, "victim=replay")
 			cs.ClassIf(committedAt >= 0, "after-commit(other node height)")
@@ -777,6 +926,11 @@ func runChain(t *rapid.T, rec *ev.Rec) {
 			} else {
 				committedAt = ci
 				checkCommitted(t, e, b, c)
+				if !c.qc.EqualPayloads(e.base) {
+					// B committed a certificate a (Byzantine) quorum signed with another results hash / proposer key than the honest
+					// one: the two nodes now hold different last certificates, the chain cannot continue in lock-step
+					forked = true
+				}
 			}
 			cs.Done(c.nontrivial || c.kind == "subset")
 		}
@@ -795,6 +949,9 @@ func runChain(t *rapid.T, rec *ev.Rec) {
 		sa, sb := takeSnap(t, a, true), takeSnap(t, b, true)
 		if sa.lastHash != sb.lastHash || sa.committed != sb.committed || sa.working != sb.working || sa.version != sb.version {
 			t.Fatalf("VIOLATION C02/C03: A and B differ after height %d (hash %s vs %s)", e.height, sa.lastHash, sb.lastHash)
+		}
+		if forked {
+			break
 		}
 	}
 }
